@@ -145,7 +145,7 @@ type drvResult struct {
 func (d *c20drv) spawn(bin string, sc *scenario, args []string) drvResult {
 	d.n++
 	var res drvResult
-	cmd := exec.Command(bin, args...)
+	cmd := childCommand(bin, args...)
 	dir, err := os.MkdirTemp(d.tmp, "drv-")
 	if err != nil {
 		res.stderr = err.Error()
@@ -177,7 +177,7 @@ func (d *c20drv) spawn(bin string, sc *scenario, args []string) drvResult {
 		} else if err != nil {
 			res.code = -2
 		}
-	case <-time.After(20 * time.Second):
+	case <-time.After(10 * time.Second):
 		cmd.Process.Kill()
 		<-done
 		res.hung = true
@@ -380,7 +380,7 @@ func (d *c20drv) run(c *verifsim.Chooser, st *Stats, render bool) *Outcome {
 
 	// every sub-command terminates normally
 	if res.hung {
-		o.violate("C20/driver", sig+" hang", "the driver did not terminate (20 s of wall clock; simulated hard cap 400000 polls)")
+		o.violate("C20/driver", sig+" hang", "the driver did not terminate (10 s of wall clock; simulated hard cap 400000 polls)")
 		return o
 	}
 	if res.code != 0 && res.code != 1 {
@@ -546,9 +546,11 @@ func (d *c20drv) run(c *verifsim.Chooser, st *Stats, render bool) *Outcome {
 			if haveDoc {
 				os.WriteFile(filepath.Join(dir, "doc.json"), []byte(doc), 0o644)
 			}
-			cmd := exec.Command(d.real, args...)
+			cmd := childCommand(d.real, args...)
 			cmd.Dir = dir
+			timer := time.AfterFunc(10*time.Second, func() { cmd.Process.Kill() })
 			out, _ := cmd.Output()
+			timer.Stop()
 			d.smokeDone++
 			st.probe("real-binary-smoke")
 			if string(out) != res.stdout {
